@@ -1,6 +1,6 @@
 (* C20 — Configuration precedence: command line over config file over defaults; userdata.
    Statements only; proofs are in theories/ConfigProofs.v and theories/UserDataProofs.v. *)
-From BV Require Import Base UStr ConfigTypes UserData Config ConfigProofs UserDataProofs.
+From BV Require Import Base UStr ConfigTypes UserData Config ConfigProofs ConfigTagsProofs UserDataProofs.
 From BVGen Require Import ConfigTables.
 
 (* ---- facts about the option tables generated from the code (decided by evaluation) ---- *)
@@ -231,6 +231,25 @@ Theorem getters_keep_values_that_already_have_the_type :
   (forall i, ud_get name d = Some (UFloat i) -> getfloat d name = GKeep (UFloat i)).
 Proof. exact getters_keep_converted. Qed.
 Print Assumptions getters_keep_values_that_already_have_the_type.
+
+(* the tag expression of the run: --tags from the command line over the configuration file's tags
+   (kept under config_tags) over default_tags over none; the stage touches nothing else and fails
+   only for an unknown tag-expression protocol name *)
+Theorem tags_command_line_over_file_over_default_tags :
+  forall n n', tags_stage n = ok n' ->
+    ns_val (u "tags") n' = chosen_tags n /\
+    forall k, ustr_eqb k (u "tags") = false -> ustr_eqb k (u "protocol_in_use") = false -> ns_val k n' = ns_val k n.
+Proof. exact tags_stage_precedence. Qed.
+Print Assumptions tags_command_line_over_file_over_default_tags.
+
+Theorem tags_stage_fails_only_for_an_unknown_protocol :
+  forall n,
+  (exists n', tags_stage n = ok n') \/
+  (tags_stage n = inr EValue /\
+   match ns_val (u "tag_expression_protocol") n with
+   | VProto _ => False | VStr s => proto_from_name s = None | _ => True end).
+Proof. exact tags_stage_total. Qed.
+Print Assumptions tags_stage_fails_only_for_an_unknown_protocol.
 
 (* ---- the hypotheses are satisfiable: one concrete configuration through the whole pipeline ---- *)
 Example a_file_and_a_command_line :
